@@ -464,5 +464,8 @@ def run(chk, fb, tier):
     _d3_d4(chk, fb)
     _d5(chk, fb)
     _d6(chk, fb)
+    from . import copyrule
+    chk.rule("DC", "copy constructor and copy assignment copy the same members; operator= empties a member container before re-populating it; copy functions never assign through a stored shared pointer")
+    copyrule.check(chk, fb, "DC", lambda c: c["file"].endswith(("Bpp/Numeric/ParameterList.h",)), floor=1)
     chk.assume("index sets passed to createSubList/deleteParameters are repeated-free (property quantifier)")
     chk.assume("Parameter::setValue is the only way a bulk setter changes a value (C01-D1 who-writes)")
